@@ -333,7 +333,7 @@ def program_check(src_pairs, checker, col=None):
 
 def shards(tier, seed):
     n = 16
-    per = 500 if tier == "quick" else 40000
+    per = 1200 if tier == "quick" else 40000
     out = [{"mode": "pairs", "index": i, "examples": per} for i in range(n)]
     out += [{"mode": "program", "index": i, "modules": 5 if tier == "quick" else 150} for i in range(4 if tier == "quick" else 16)]
     return out
